@@ -418,6 +418,39 @@ func scenC14(k *K) {
 			k.StopPeer(z)
 		}
 	}
+	// one options value (access-controller parameters given, no write list) used by two peers
+	// one after the other: each creator's own id is the default, so each gets its own
+	// database, at the address it computes for these inputs without that options value
+	if k.C.Chance(1, 3) {
+		shared := &orbitdb.CreateDBOptions{AccessController: accesscontroller.NewEmptyManifestParams()}
+		typ := []string{"keyvalue", "eventlog", "docstore"}[k.C.Intn(3)]
+		for _, pi := range []int{0, 1} {
+			pi := pi
+			op := k.Do(pi, "create-with-reused-options", 100, func() (interface{}, error) {
+				ctx, cancel := OpCtx(time.Minute)
+				defer cancel()
+				return peers[pi].DB.Create(ctx, "reused-options", typ, shared)
+			})
+			if !op.Done || op.Err != nil {
+				k.Failf("C14/create-error", "Create with an options value used before by another peer failed: done=%v err=%v", op.Done, op.Err)
+			}
+			st := op.Val.(iface.Store)
+			own := peers[pi].DB.Identity().ID
+			w, _ := st.AccessController().GetAuthorizedByRole("write")
+			if len(w) != 1 || w[0] != own {
+				k.Failf("C14/write-list-differs", "peer %d created a database with no write list given (options value used before by another peer): its write list is %v, expected its own id only", pi, shortIDs(w))
+			}
+			aop := k.Do(pi, "determine-address", 100, func() (interface{}, error) {
+				ctx, cancel := OpCtx(time.Minute)
+				defer cancel()
+				return peers[pi].DB.DetermineAddress(ctx, "reused-options", typ, nil)
+			})
+			if aop.Done && aop.Err == nil && aop.Val.(address.Address).String() != st.Address().String() {
+				k.Failf("C14/address-differs", "peer %d: the database created with a reused options value is at %s, the address computed from the same inputs is %s", pi, short(st.Address().String()), short(aop.Val.(address.Address).String()))
+			}
+		}
+		k.W.Stat("options-value-reused-by-two-peers")
+	}
 	k.Notes["accepted_names"] = accepted
 	k.Notes["special_names"] = specials
 	k.Notes["remote_opens_ok"] = remoteOK
